@@ -204,7 +204,7 @@ class SimNode:
         if len(toks) != len(raw) and strict_ok:
             strict_ok = False
             self._malformed(owner, "extra-space", line)
-        if strict_ok and any(c < 0x20 or c == 0x7F for c in body):
+        if strict_ok and any(c in b"\t\r\n\x0b\x0c\x00" for c in body):
             strict_ok = False
             self._malformed(owner, "control-char", line)
 
